@@ -2,6 +2,7 @@
 C09 — expressions group by the documented precedence and associativity.
 -/
 import Ajson.Spec.Shunt
+import Ajson.Proofs.ShuntCorrect
 
 namespace Ajson.Props.C09
 open Ajson Ajson.Cur Ajson.Spec
@@ -35,9 +36,6 @@ theorem builtin_disjoint :
 
 /-! ### the stack discipline, for EVERY table (built-in or user-registered) -/
 
-/-- does `top` leave the stack when `cur` arrives: it binds tighter, or equally tight and groups to the left -/
-def yields (t : OpTable) (top cur : Bytes) : Bool :=
-  t.isFunction top || (t.prio top != 0 && (t.prio top > t.prio cur || (t.prio top == t.prio cur && !t.isRight top)))
 
 theorem popOps_one (t : OpTable) (cur top : Bytes) (out : List Bytes) :
     popOps t cur [top] out = if yields t top cur then ([], out ++ [top]) else ([top], out) := by
@@ -94,6 +92,58 @@ theorem C09_parentheses (t : OpTable) (a b c o1 o2 : Bytes)
     shunt t [.lparen, .operand a, .op o1, .operand b, .rparen, .op o2, .operand c] = some [a, b, o1, c, o2] := by
   unfold shunt
   simp [shuntLoop, popOps, popParen, hp, hfp, ne1, flushStack, h2, f2]
+
+/-! ### arbitrary nesting depth -/
+
+/-- **C09, the grouping theorem.** For every operator table whose associativity is uniform per priority level and in which
+`(` is neither an operator nor a function, and for every expression tree `e`: every way of writing `e` by the stratified
+grammar of the documented rules (`Spec.Renders`: left-grouping operators take their right operand one level up,
+right-grouping ones their left operand; calls and parenthesised sub-expressions are atoms; redundant parentheses anywhere)
+is converted by the shunting yard into the postfix form of `e` — at any depth, with any number of operators. -/
+theorem C09_any_depth (t : OpTable) (hu : Uniform t) (hp : ParenOK t) (e : Spec.Expr) (ts : List Tok) (h : Renders t 0 e ts) :
+    shunt t ts = some (toPostfix e) := shunt_correct t hu hp e ts h
+
+/-- the regenerated built-in table meets the two hypotheses -/
+theorem builtin_uniform : Uniform builtinTable := uniform_of_check builtinTable (by decide +kernel)
+
+theorem builtin_parenOK : ParenOK builtinTable := by constructor <;> decide +kernel
+
+/-- hence: every rendering of every expression over the built-in operators is grouped as documented -/
+theorem C09_builtin (e : Spec.Expr) (ts : List Tok) (h : Renders builtinTable 0 e ts) : shunt builtinTable ts = some (toPostfix e) :=
+  shunt_correct builtinTable builtin_uniform builtin_parenOK e ts h
+
+/-- and the postfix stack machine of `eval` computes the value of that tree: for any semantics of atoms, functions and
+operations, running the postfix form of `e` from an empty stack leaves exactly the value of `e` -/
+theorem C09_postfix_evaluates_tree {V : Type} (t : OpTable) (s : Sem V) (e : Spec.Expr) (hw : WellNamed t e) :
+    evalPost t s (toPostfix e) [] = (evalTree s e).map (fun v => [v]) := evalPost_value t s e hw
+
+/-- non-vacuity: `1 ^ 2 * (3 - abs(4)) ** 5 ** 6` written without further parentheses is a rendering of the tree the documented
+rules give it -/
+example : Renders builtinTable 0
+    (.bin (sb "^") (.atom (sb "1")) (.bin (sb "*") (.atom (sb "2"))
+      (.bin (sb "**") (.bin (sb "-") (.atom (sb "3")) (.call (sb "abs") (.atom (sb "4")))) (.bin (sb "**") (.atom (sb "5")) (.atom (sb "6"))))))
+    [.operand (sb "1"), .op (sb "^"), .operand (sb "2"), .op (sb "*"), .lparen, .operand (sb "3"), .op (sb "-"), .fn (sb "abs"), .lparen,
+     .operand (sb "4"), .rparen, .rparen, .op (sb "**"), .operand (sb "5"), .op (sb "**"), .operand (sb "6")] := by
+  have p4 : builtinTable.prio (sb "^") = 4 := by decide +kernel
+  have p5 : builtinTable.prio (sb "*") = 5 := by decide +kernel
+  have p6 : builtinTable.prio (sb "**") = 6 := by decide +kernel
+  have pm : builtinTable.prio (sb "-") = 4 := by decide +kernel
+  refine Renders.binL 0 (sb "^") _ _ [.operand (sb "1")] _ (by decide +kernel) (by decide +kernel) (by omega) (by decide +kernel)
+    (Renders.atom _ _) ?_
+  rw [p4]
+  refine Renders.binL 5 (sb "*") _ _ [.operand (sb "2")] _ (by decide +kernel) (by decide +kernel) (by omega) (by decide +kernel)
+    (Renders.atom _ _) ?_
+  rw [p5]
+  refine Renders.binR 6 (sb "**") _ _ [.lparen, .operand (sb "3"), .op (sb "-"), .fn (sb "abs"), .lparen, .operand (sb "4"), .rparen, .rparen] _
+    (by decide +kernel) (by decide +kernel) (by omega) (by decide +kernel) ?_ ?_
+  · rw [p6]
+    refine Renders.paren 7 _ [.operand (sb "3"), .op (sb "-"), .fn (sb "abs"), .lparen, .operand (sb "4"), .rparen] ?_
+    refine Renders.binL 0 (sb "-") _ _ [.operand (sb "3")] _ (by decide +kernel) (by decide +kernel) (by omega) (by decide +kernel)
+      (Renders.atom _ _) ?_
+    exact Renders.call _ (sb "abs") _ [.operand (sb "4")] (by decide +kernel) (Renders.atom _ _)
+  · rw [p6]
+    exact Renders.binR 6 (sb "**") _ _ [.operand (sb "5")] [.operand (sb "6")] (by decide +kernel) (by decide +kernel) (by omega) (by decide +kernel)
+      (Renders.atom _ _) (Renders.atom _ _)
 
 /-- the instance the property text names: with the built-in table `1 ^ 2 * 3` groups as `1 ^ (2 * 3)` -/
 example : shunt builtinTable [.operand (sb "1"), .op (sb "^"), .operand (sb "2"), .op (sb "*"), .operand (sb "3")] =
